@@ -70,7 +70,11 @@ var names = []string{"ann", "bob", "cy", "dee", "eve", "flo", "gus", "hal"}
 
 func genTable(r *hutil.Rng, name string) *Table {
 	t := &Table{Name: name}
-	switch r.Intn(16) {
+	switch r.Intn(18) {
+	case 16:
+		t.Keys = []Col{{Name: "id", Typ: "BIGINT", Big: true}}
+	case 17:
+		t.Keys = []Col{{Name: "code", Typ: "VARCHAR", Num: true}}
 	case 14, 15:
 		t.Keys = []Col{{Name: "id", Typ: "BIGINT", AutoInc: true}}
 	case 12, 13:
